@@ -71,11 +71,13 @@ def run(ctx):
             for k in KINDS:
                 cases.append((a, k, "extreme"))
         lines = ["hdr %s %s" % (k, a.hex() if a else "-") for a, k, _ in cases]
-        co = common.run_lines_parallel([hexe], lines, timeout=300)
+        co = common.run_lines_parallel([hexe], lines, timeout=60, single_timeout=5, max_hangs=2)
         mo = common.run_lines_parallel([ctx.model], lines, timeout=900)
         nontriv = 0
         for (a, k, tag), ln, c, m in zip(cases, lines, co, mo):
             dist[tag + ":" + k] += 1
+            if c.startswith("SKIPPED"):
+                continue
             if c.startswith("HANG") or "TIMEOUT" in c:
                 viol.append({"property": PID, "kind": "call-does-not-return", "case": ln[:100000], "observed": c[:200], "sig": "hang:" + k})
                 continue
@@ -116,10 +118,12 @@ def run(ctx):
                 dl.append(decgen.case(s["method"], s["data"][:len(s["data"]) // 2], "-", 2 ** 32 - 1, "65536*4,1*50", -1, 0))
         for m_ in ("-lzs-", "-lz5-", "-lh5-", "-lh1-"):
             dl.append(decgen.case(m_, b"\x00" * 3000, "-", 10 ** 7, "1048576*3", -1, 0))
-        do = common.run_lines_parallel([dexe], dl, timeout=300)
+        do = common.run_lines_parallel([dexe], dl, timeout=120, single_timeout=30, max_hangs=2)
         for ln, c in zip(dl, do):
             dist["decoder-budget"] += 1
             pc = decgen.parse(c)
+            if c.startswith("SKIPPED"):
+                continue
             if "len" not in pc:
                 viol.append({"property": PID, "kind": "decode-does-not-return-or-crashes", "case": ln[:20000], "observed": c[:200],
                              "sig": "dechang:" + ln.split()[1]})
